@@ -12,7 +12,7 @@ Oracle: direct assertions on the real LatexTokenReader, plus the always-on
 contracts (icontract) on peek_token / next_token.
 """
 from pylatexenc.latexnodes import (
-    LatexTokenReader, ParsingState, LatexWalkerEndOfStream, LatexWalkerTokenParseError,
+    LatexTokenReader, ParsingState, LatexWalkerEndOfStream, LatexWalkerTokenParseError, LatexTokenListTokenReader,
 )
 from ..gen import soup
 from ..mon import contracts
@@ -86,7 +86,8 @@ def floors(tier):
     return {'evaluations': 100000, 'distinct_nontrivial': 20000,
             'peek_token_does_not_move': 100000, 'next_token_advances': 100000,
             'rewind_checked': 100000, 'end_of_stream_reached': 20000,
-            'histkeys:config': len(CONFIGS), 'hist:mode:tolerant': 10000, 'hist:mode:strict': 10000}
+            'char_level_calls_checked': 100000, 'resume_from_position_checked': 30000,
+            'token_list_reader_replays': 20000, 'histkeys:config': len(CONFIGS), 'hist:mode:tolerant': 10000, 'hist:mode:strict': 10000}
 
 
 def setup(rec):
@@ -111,6 +112,7 @@ def read_all(s, with_ctx, kw, tol, rec):
     out = ''
     nreads = 0
     kinds = set()
+    toks = []
     while True:
         p0 = tr.cur_pos()
         try:
@@ -135,6 +137,7 @@ def read_all(s, with_ctx, kw, tol, rec):
         if tr.cur_pos() != p0:
             return 'peek_token() moved the reader %r -> %r (token %r)' % (p0, tr.cur_pos(), pk)
         tok = tr.next_token(ps)
+        toks.append(tok)
         nreads += 1
         kinds.add(tok.tok)
         rec.hist('token_kind', tok.tok)
@@ -167,6 +170,87 @@ def read_all(s, with_ctx, kw, tol, rec):
             return 're-read left the reader at %r instead of %r' % (tr.cur_pos(), p1)
     if nreads >= 2 and len(kinds) >= 2:
         rec.nontrivial((s, with_ctx, sorted(kw.items(), key=str), tol))
+    return second_pass(s, ps, tol, toks, rec)
+
+
+def second_pass(s, ps, tol, toks, rec):
+    """The other reader entry points on the same input: peek_token_or_none / move_past_token, the character-level
+    calls, resuming from a position, and the token-list reader fed with the tokens just read."""
+    tr = LatexTokenReader(s, tolerant_parsing=tol)
+    for i, tok in enumerate(toks):
+        p0 = tr.cur_pos()
+        # character-level peeks do not move; reads return what the peek showed and move by that much
+        k = 1 + (i % 3)
+        pc = tr.peek_chars(k, ps)
+        if pc != s[p0:p0 + k] or tr.cur_pos() != p0:
+            return 'peek_chars(%d) at %d gives %r / moves to %r (input slice %r)' % (k, p0, pc, tr.cur_pos(), s[p0:p0 + k])
+        sp = tr.peek_space_chars(ps)
+        if tr.cur_pos() != p0:
+            return 'peek_space_chars() moved the reader %r -> %r' % (p0, tr.cur_pos())
+        if sp[0] != s[sp[1]:sp[2]] or sp[1] != p0 or sp[0].strip() != '':
+            return 'peek_space_chars() at %d returns %r, not a whitespace run starting there' % (p0, sp)
+        if not tok.pre_space.startswith(sp[0]) and not sp[0].startswith(tok.pre_space):
+            return 'peek_space_chars() at %d sees %r but the next token has pre_space %r' % (p0, sp[0], tok.pre_space)
+        rec.monitor('char_level_calls_checked')
+        if i % 2:
+            sk = tr.skip_space_chars(ps)
+            if tuple(sk) != tuple(sp) or tr.cur_pos() != sp[2]:
+                return 'skip_space_chars() at %d returns %r and leaves the reader at %r; peek_space_chars() gave %r' % (
+                    p0, sk, tr.cur_pos(), sp)
+            tr.move_to_pos_chars(p0)
+        if i % 3 == 0:
+            nc = tr.next_chars(k, ps)
+            if nc != pc or tr.cur_pos() != min(p0 + k, len(s)):
+                return 'next_chars(%d) at %d gives %r and leaves the reader at %r' % (k, p0, nc, tr.cur_pos())
+            tr.move_to_pos_chars(p0)
+        if tr.cur_pos() != p0:
+            return 'move_to_pos_chars(%d) left the reader at %r' % (p0, tr.cur_pos())
+        pk = tr.peek_token_or_none(ps)
+        if pk is None or tokkey(pk) != tokkey(tok) or tr.cur_pos() != p0:
+            return 'peek_token_or_none() at %d gives %r (reader now at %r); the first pass read %r there' % (
+                p0, pk, tr.cur_pos(), tok)
+        # a reader has no state but its position: a fresh reader moved here reads the same token
+        if i % 4 == 0:
+            tr2 = LatexTokenReader(s, tolerant_parsing=tol)
+            tr2.move_to_pos_chars(p0)
+            t2 = tr2.next_token(ps)
+            rec.monitor('resume_from_position_checked')
+            if tokkey(t2) != tokkey(tok):
+                return 'a fresh reader moved to %d reads %r, the first pass read %r there' % (p0, t2, tok)
+        tr.move_past_token(pk)
+        if tr.cur_pos() != tok.pos_end:
+            return 'move_past_token() left the reader at %r, token ends at %r (%r)' % (tr.cur_pos(), tok.pos_end, tok)
+    if tol and tr.peek_token_or_none(ps) is not None:
+        return 'peek_token_or_none() after the last token of the first pass returns %r' % (tr.peek_token_or_none(ps),)
+    # the list reader replays the tokens
+    if toks:
+        lr = LatexTokenListTokenReader(list(toks))
+        for i, tok in enumerate(toks):
+            if lr.cur_pos() != tok.pos:
+                return 'token-list reader: cur_pos() %r before token %d at %r' % (lr.cur_pos(), i, tok.pos)
+            if lr.peek_token(ps) is not tok or lr.peek_token(ps) is not tok:
+                return 'token-list reader: peek_token() does not return token %d / moves' % i
+            if lr.peek_token_or_none(ps) is not tok:
+                return 'token-list reader: peek_token_or_none() does not return token %d' % i
+            if lr.next_token(ps) is not tok:
+                return 'token-list reader: next_token() does not return token %d' % i
+            if i % 3 == 0:
+                lr.move_to_token(tok)
+                if lr.next_token(ps) is not tok:
+                    return 'token-list reader: re-read after move_to_token() does not return token %d' % i
+            if i % 5 == 0:
+                lr.move_to_token(toks[0])
+                lr.move_past_token(tok)
+        rec.monitor('token_list_reader_replays')
+        if lr.peek_token_or_none(ps) is not None:
+            return 'token-list reader: a token after the last one: %r' % (lr.peek_token_or_none(ps),)
+        try:
+            lr.next_token(ps)
+            return 'token-list reader: next_token() past the end does not raise LatexWalkerEndOfStream'
+        except LatexWalkerEndOfStream:
+            pass
+        if lr.final_pos() != toks[-1].pos_end:
+            return 'token-list reader: final_pos() %r, last token ends at %r' % (lr.final_pos(), toks[-1].pos_end)
     return None
 
 
